@@ -74,6 +74,10 @@ def gen(rng):
     for i in range(n):
         tdir, top, _u = rng.choice(locs)
         nm = rng.choice(['p%d' % i, 'x%d.trashinfo' % i, 'new\nline%d' % i, 'a b%d' % i, '-rf%d' % i, 'é%d' % i, '.dot%d' % i, '%%41%d' % i])
+        if rng.random() < 0.06 and not any(x in names for x in ('.trashinfo', '...trashinfo', '..trashinfo')):
+            # a trashed file that is itself called '.trashinfo' / '...trashinfo' (a stray info file somebody tidied away): a
+            # legitimate entry, files/.trashinfo + info/.trashinfo.trashinfo
+            nm = rng.choice(['.trashinfo', '...trashinfo', '..trashinfo'])
         if rng.random() < 0.12:
             # a name that is the percent-ENCODED spelling of a path that leads out of files/ (relative, through '..', or
             # absolute) to something that exists: names are literal, whoever decodes one walks out of the trash
